@@ -515,8 +515,9 @@ bool XMLReader::begin(tag_t tag, bool skipEmpty)
 bool UTAP::XMLReader::end(UTAP::tag_t tag)
 {
     int node_type = getNodeType();
-    // Ignore whitespace
-    while (node_type == XML_READER_TYPE_WHITESPACE || node_type == XML_READER_TYPE_SIGNIFICANT_WHITESPACE) {
+    // Ignore whitespace, comments and processing instructions
+    while (node_type == XML_READER_TYPE_WHITESPACE || node_type == XML_READER_TYPE_SIGNIFICANT_WHITESPACE ||
+           node_type == XML_READER_TYPE_COMMENT || node_type == XML_READER_TYPE_PROCESSING_INSTRUCTION) {
         read();
         node_type = getNodeType();
     }
